@@ -59,6 +59,10 @@ def gen(g, count):
         for i, n in enumerate(recs):
             ings = [(r.choice(leaves + recs[:i]), qint(g)) for _ in range(r.randint(0, 4))]
             book.append((n, ings))
+        if book and r.random() < 0.12:
+            # the same heading declared twice: the later record replaces the earlier one; stats counts headings, not names
+            k = r.randrange(len(book))
+            book.append((book[k][0], [(r.choice(leaves), qint(g)) for _ in range(r.randint(0, 3))]))
         if r.random() < 0.15:
             # one coefficient beyond 2^24 (odd: exact in float64, not in float32); one per book, so that every product stays exact
             cand = [(i, j) for i, (n, ings) in enumerate(book) for j, (ing, _) in enumerate(ings) if ing in leaves]
@@ -69,6 +73,8 @@ def gen(g, count):
                 ings[j] = (ings[j][0], Qty(str(big), Fraction(big)))
                 book[i] = (book[i][0], ings)
         others = [b'/'.join(g.word(2, 6, 0.15).encode() for _ in range(2)) for _ in range(2)]
+        if r.random() < 0.15:
+            others = [o + r.choice([b'%', b' 3.5%', b'%d', b'&co', b"'s", b'<b>', b'+x', b'%s%v']) for o in others]
         if r.random() < 0.35:
             # an empty category component (doubled or trailing separator) is a component like any other
             w = lambda: g.word(2, 6, 0.15).encode()
@@ -131,7 +137,7 @@ def judge(ctx, groups, impl):
             continue
         x = info['x']
         def bad(key, what, detail=None, signature='reports-disagree'):
-            ctx.problem('oracle', what, grp[key], detail or {}, signature=signature)
+            ctx.problem('oracle', what, grp[key], detail or {}, signature=signature, related=list(grp.values()))
         try:
             totals = {n: (F(p), F(ng), F(s)) for n, p, ng, s in spec.parse_totals(o['totals'])}
             days = spec.parse_register_default(o['reg'])
